@@ -20,7 +20,8 @@ EXPLANATION = (
     'connector node, NodeExistence.__hash__ every public attribute; selection cache and matrix cache use the same '
     'key in different folders; (A2) each pickle cache uses one path variable for exists / load / dump; (A5) the '
     'zero-matrix short-cut precedes candidate scoring and yields a manager without variables; the time-limit '
-    'override is restored.  Not decided: time-limit behaviour, cross-process cache writes.')
+    'override is restored.  Not decided: time-limit behaviour, cross-process cache writes.'
+    ' (A10z) a division by a value the function tests against zero lies behind that test; (A8) source and target connectors are separate components of the settings key.')
 
 # explicit raises on the candidate-instantiation slice that are not input-reachable
 RAISE_TABLE = {
